@@ -471,6 +471,18 @@ class Interp:
 
                 self.symloop(iname, n, st.body, pre=pre)
                 return
+        if isinstance(it, (ast.Name, ast.Attribute, ast.Subscript)) and isinstance(st.target, ast.Name):
+            seq = self.ev(it)
+            if isinstance(seq, (Arr, View, OpqArr)) and _ndim(seq) in (1, None):
+                n = self.length(seq, it)
+                ename = st.target.id
+
+                def pre2(var):
+                    self.env[ename] = self.index(seq, [var], it)
+
+                self.symloop("pos_" + ename, tov(n), st.body, pre=pre2)
+                self.env.pop("pos_" + ename, None)
+                return
         self.err(st, "unsupported loop iterator")
 
     def symloop(self, name, bound, body, pre=None, parallel=False):
@@ -536,6 +548,10 @@ class Interp:
         if isinstance(st.target, ast.Name):
             cur = self.ev(st.target)
             v = self.ev(st.value)
+            if isinstance(cur, Arr) and cur.ndim is not None and type(st.op) in (ast.Add, ast.Sub, ast.Mult, ast.Div):
+                op = {ast.Add: "+=", ast.Sub: "-=", ast.Mult: "*=", ast.Div: "/="}[type(st.op)]
+                self.write(cur, [("all",)] * cur.ndim, op, v, st)
+                return
             self.scalar_aug.append((st.target.id, self.births.get(st.target.id, self.depth), list(self.loops), st))
             # scalar reduction into a local over symbolic loops
             if st.target.id in self.hooks.get("counters", ()):
@@ -601,6 +617,15 @@ class Interp:
         if isinstance(base, View):
             spec = self.compose(base, spec, node)
             base = base.base
+        if isinstance(base, OpqArr) and not isinstance(base, Lazy):
+            # in-place update of an opaque array (e.g. scaling the values a callee returned): overlay stores on it
+            if getattr(base, "overlay", None) is None:
+                base.overlay = Arr(base.desc, "overlay", ndim=base.ndim, depth=len(self.loops))
+                base.overlay.ref = base
+                lit = self.literal_shape_axes(base)
+                if lit is not None:
+                    base.overlay.shape = [x if isinstance(x, int) else opaque_atom("shape(%s,%d)" % (base.desc, k)) for k, x in enumerate(lit)]
+            base = base.overlay
         if not isinstance(base, Arr):
             self.err(node, "store into non-array")
         # unroll full slices over axes of small literal extent (e.g. the coordinate axis)
@@ -712,6 +737,8 @@ class Interp:
             return V.const(1)
         if arr.kind == "input":
             return opaque_atom(arr.desc, idx)
+        if arr.kind == "overlay":
+            return self.subscript(arr.ref, [("fix", i) for i in idx], node, _skip_overlay=True)
         self.err(node, "read of uninitialised slot of %s" % arr.desc)
 
     def compose(self, view, spec, node):
@@ -762,7 +789,7 @@ class Interp:
         """base[idx...] with all-fixed indices (ints or V)."""
         return self.subscript(base, [("fix", i) for i in idx], node)
 
-    def subscript(self, base, spec, node):
+    def subscript(self, base, spec, node, _skip_overlay=False):
         if isinstance(base, Tensor):
             if all(s[0] == "fix" for s in spec):
                 lits = [_try_int(s[1]) for s in spec]
@@ -786,6 +813,8 @@ class Interp:
         if isinstance(base, View):
             spec = self.compose(base, spec, node)
             base = base.base
+        if isinstance(base, OpqArr) and getattr(base, "overlay", None) is not None and not _skip_overlay:
+            return self.subscript(base.overlay, spec, node)
         if isinstance(base, OpqArr) and hasattr(base, "sub"):
             return base.sub(self, spec, node)
         if _is_opqarr(base):
@@ -802,6 +831,8 @@ class Interp:
                         return r
                 return opaque_atom(base.desc, idx)
             return View(base, full)
+        if isinstance(base, (Arr, OpqArr)) and len(spec) == 1 and spec[0][0] == "fix" and isinstance(spec[0][1], (Arr, View, OpqArr)):
+            return Gather(base, spec[0][1])
         if isinstance(base, Arr):
             full = list(spec)
             if base.ndim is not None:
@@ -1266,6 +1297,8 @@ class Interp:
                 shp2 = [s if s != -1 else None for s in shp]
                 if all(isinstance(s, int) for s in shp):
                     return Tensor(tuple(shp), t.items)
+        if isinstance(v, (View, Arr, OpqArr)) and _ndim(v) == 1 and len(shp) == 2 and _try_int(shp[1]) == 1:
+            return Expand(v, 1)
         self.err(node, "unsupported reshape")
 
     def np_call(self, f, e):
@@ -1741,6 +1774,72 @@ def _np_tile(it, args, kw, e):
     return Tile(it, args[0], args[1], e)
 
 
+class Gather(OpqArr):
+    """base[index_array] for a rank-1 index array: [k, ...] -> base[index_array[k], ...]."""
+
+    def __init__(self, base, idx):
+        nd = _ndim(base)
+        OpqArr.__init__(self, "gather", nd)
+        self.base, self.idx = base, idx
+
+    def sub(self, it, spec, node):
+        if spec and spec[0][0] == "fix":
+            k = it.index(self.idx, [spec[0][1]], node)
+            return it.subscript(self.base, [("fix", k)] + list(spec[1:]), node)
+        nd = self.ndim or 1
+        return View(self, list(spec) + [("all",)] * (nd - len(spec)))
+
+
+class SumAxis(OpqArr):
+    """np.sum(a, axis=k): the summed axis gets a fresh bound variable and a Σ marker on every read."""
+
+    def __init__(self, it, a, axis, node):
+        nd = _ndim(a)
+        if nd is None:
+            it.err(node, "sum over an array of unknown rank")
+        if axis < 0:
+            axis += nd
+        OpqArr.__init__(self, "sum", nd - 1)
+        self.a, self.axis = a, axis
+        self.bound = tov(it.shape_of(a, axis))
+
+    def sub(self, it, spec, node):
+        if len(spec) == self.ndim and all(s[0] == "fix" for s in spec):
+            var = fresh("ιsum")
+            RANGES[var] = self.bound
+            idx = [s[1] for s in spec]
+            idx.insert(self.axis, V.atom(var))
+            return tov(it.index(self.a, idx, node)) * sigma(var)
+        return View(self, list(spec) + [("all",)] * (self.ndim - len(spec)))
+
+
+def _np_sum(it, args, kw, e):
+    a = args[0]
+    axis = None
+    if "axis" in kw:
+        axis = it.ev(kw["axis"])
+    elif len(args) > 1:
+        axis = args[1]
+    if isinstance(a, Tensor):
+        if axis is None:
+            return vsum(tov(x) for x in a.items)
+        it.err(e, "axis sum of a literal tensor")
+    nd = _ndim(a)
+    if nd is None:
+        it.err(e, "sum over an array of unknown rank")
+    if axis is None:
+        cur = a
+        for _ in range(nd):
+            cur = SumAxis(it, cur, 0, e)
+        return it.subscript(cur, [], e) if False else cur.sub(it, [], e)
+    if not isinstance(axis, int):
+        it.err(e, "symbolic sum axis")
+    r = SumAxis(it, a, axis, e)
+    if r.ndim == 0:
+        return r.sub(it, [], e)
+    return r
+
+
 class Stack(OpqArr):
     """np.vstack of rank-1 array-likes: [k, j] -> operand_k[j]."""
 
@@ -1837,6 +1936,7 @@ for _p in ("_np", "np", "numpy"):
     _NP_FUNCS[_p + ".ascontiguousarray"] = _np_identity
     _NP_FUNCS[_p + ".arange"] = _np_arange
     _NP_FUNCS[_p + ".repeat"] = _np_repeat
+    _NP_FUNCS[_p + ".sum"] = _np_sum
     _NP_FUNCS[_p + ".tile"] = _np_tile
     _NP_FUNCS[_p + ".zeros"] = _np_zeros("zeros")
     _NP_FUNCS[_p + ".empty"] = _np_zeros("empty")
